@@ -583,9 +583,117 @@ func genCtxFields(r *Repo) (string, error) {
 	// Clone and CloneWith read the source context too
 	fmt.Fprintf(&sb, "def reads_Clone : List String := %s\ndef reads_CloneWith : List String := %s\n", leanStrList(ctxReadsFiltered(readsOf(cl), cfields)), leanStrList(ctxReadsFiltered(readsOf(cw), cfields)))
 
+	// ---- the response recorder embedded in the context (the type of the field the contexts reset through `<field>.reset(w)`):
+	// its fields, and the fields its reset assigns. A pooled context hands its recorder to the next request; a field reset
+	// leaves out is state of the previous request.
+	recFields, recAssigned, err := ctxRecorderReset(r)
+	if err != nil {
+		return "", err
+	}
+	fmt.Fprintf(&sb, "/-- fields of the recorder embedded in cTx (an embedded type counts by its type name) -/\ndef recorderFields : List String := %s\n", leanStrList(recFields))
+	fmt.Fprintf(&sb, "/-- fields assigned by its reset method -/\ndef recorderResetAssigned : List String := %s\n", leanStrList(recAssigned))
+
 	fmt.Fprintf(&sb, "def ctxSha : String := %s\n", leanStr(r.Sha("context.go", "fox.go", "txn.go")))
 	sb.WriteString("\nend Fox.Generated\n")
 	return sb.String(), nil
+}
+
+// ctxRecorderReset: the struct type of cTx's recorder field (the field whose `reset` method cTx.reset calls), its fields and
+// the fields its reset method assigns (`r.f = …`, or all of them for `*r = T{…}`).
+func ctxRecorderReset(r *Repo) (fields, assigned []string, err error) {
+	pkg := r.File("context.go")
+	typeOfField := map[string]string{}
+	structs := map[string]*ast.StructType{}
+	for _, d := range pkg.Decls {
+		gd, ok := d.(*ast.GenDecl)
+		if !ok || gd.Tok != token.TYPE {
+			continue
+		}
+		for _, sp := range gd.Specs {
+			ts := sp.(*ast.TypeSpec)
+			st, ok := ts.Type.(*ast.StructType)
+			if !ok {
+				continue
+			}
+			structs[ts.Name.Name] = st
+			if ts.Name.Name == "cTx" {
+				for _, f := range st.Fields.List {
+					for _, n := range f.Names {
+						typeOfField[n.Name] = recvName(f.Type)
+					}
+				}
+			}
+		}
+	}
+	// the field through which cTx.reset resets the recorder: the receiver of a `c.<field>.reset(…)` call
+	field := ""
+	if fd := r.FuncDecl("context.go", "cTx", "reset"); fd != nil && fd.Body != nil {
+		ast.Inspect(fd.Body, func(n ast.Node) bool {
+			if call, ok := n.(*ast.CallExpr); ok {
+				if sel, ok := call.Fun.(*ast.SelectorExpr); ok && sel.Sel.Name == "reset" {
+					if inner, ok := sel.X.(*ast.SelectorExpr); ok {
+						field = inner.Sel.Name
+					}
+				}
+			}
+			return true
+		})
+	}
+	tn := typeOfField[field]
+	st := structs[tn]
+	if field == "" || st == nil {
+		return nil, nil, fmt.Errorf("the recorder field of cTx (reset through c.<field>.reset) was not found")
+	}
+	for _, f := range st.Fields.List {
+		if len(f.Names) == 0 {
+			// embedded: http.ResponseWriter -> ResponseWriter
+			switch t := f.Type.(type) {
+			case *ast.SelectorExpr:
+				fields = append(fields, t.Sel.Name)
+			default:
+				fields = append(fields, recvName(f.Type))
+			}
+		}
+		for _, n := range f.Names {
+			fields = append(fields, n.Name)
+		}
+	}
+	sort.Strings(fields)
+	fd := r.FuncDecl("context.go", tn, "reset")
+	if fd == nil || fd.Body == nil || fd.Recv == nil || len(fd.Recv.List[0].Names) == 0 {
+		return nil, nil, fmt.Errorf("%s.reset not found", tn)
+	}
+	recv := fd.Recv.List[0].Names[0].Name
+	set := map[string]bool{}
+	ast.Inspect(fd.Body, func(n ast.Node) bool {
+		as, ok := n.(*ast.AssignStmt)
+		if !ok {
+			return true
+		}
+		for i, l := range as.Lhs {
+			if sel, ok := l.(*ast.SelectorExpr); ok {
+				if id, ok := sel.X.(*ast.Ident); ok && id.Name == recv {
+					set[sel.Sel.Name] = true
+				}
+			}
+			// *r = T{…}: every field is (re)initialised
+			if star, ok := l.(*ast.StarExpr); ok && i < len(as.Rhs) {
+				if id, ok := star.X.(*ast.Ident); ok && id.Name == recv {
+					if _, ok := as.Rhs[i].(*ast.CompositeLit); ok {
+						for _, f := range fields {
+							set[f] = true
+						}
+					}
+				}
+			}
+		}
+		return true
+	})
+	for k := range set {
+		assigned = append(assigned, k)
+	}
+	sort.Strings(assigned)
+	return fields, assigned, nil
 }
 
 func ctxReadsFiltered(s ctxFieldSet, fields map[string]bool) []string {
